@@ -56,6 +56,38 @@ theorem C01_bounded (K : Ctx) (h : K.WF) (A B : Nat) :
     Bounded K.m (K.intentOf A) ∧ Bounded K.n (K.extentOf B) :=
   ⟨bounded_intentOf A, bounded_extentOf h B⟩
 
+/-- `Context.intension(objects)` on index level: `frommembers → prime → members` -/
+def intension (K : Ctx) (objs : List Nat) : List Nat := membersW K.m (K.intentOf (ofMembers objs))
+/-- `Context.extension(properties)` on index level -/
+def extension (K : Ctx) (props : List Nat) : List Nat := membersW K.n (K.extentOf (ofMembers props))
+
+/-- the property in one statement: for any argument list (any order, with repeats) of object numbers,
+`intension` lists exactly the properties every given object has, once each, in column order -/
+theorem C01_intension_list (K : Ctx) (objs : List Nat) :
+    (intension K objs).Pairwise (· < ·) ∧
+    ∀ j, j ∈ intension K objs ↔ j < K.m ∧ ∀ i ∈ objs, K.has i j := by
+  refine ⟨membersW_sorted _ _, fun j => ?_⟩
+  unfold intension
+  rw [mem_membersW, mem_intentOf]
+  constructor
+  · rintro ⟨h1, _, h2⟩; exact ⟨h1, fun i hi => h2 i (mem_ofMembers.mpr hi)⟩
+  · rintro ⟨h1, h2⟩; exact ⟨h1, h1, fun i hi => h2 i (mem_ofMembers.mp hi)⟩
+
+theorem C01_extension_list (K : Ctx) (h : K.WF) (props : List Nat) :
+    (extension K props).Pairwise (· < ·) ∧
+    ∀ i, i ∈ extension K props ↔ i < K.n ∧ ∀ j ∈ props, K.has i j := by
+  refine ⟨membersW_sorted _ _, fun i => ?_⟩
+  unfold extension
+  rw [mem_membersW, mem_extentOf h]
+  constructor
+  · rintro ⟨h1, _, h2⟩; exact ⟨h1, fun j hj => h2 j (mem_ofMembers.mpr hj)⟩
+  · rintro ⟨h1, h2⟩; exact ⟨h1, h1, fun j hj => h2 j (mem_ofMembers.mp hj)⟩
+
+/-- the raw result and the tuple result denote the same set -/
+theorem C01_raw_tuple (K : Ctx) (objs : List Nat) :
+    ofMembers (intension K objs) = K.intentOf (ofMembers objs) :=
+  ofMembers_membersW (bounded_intentOf _)
+
 /-! non-vacuity: a concrete 3×3 context (with an empty row) satisfies the hypotheses -/
 def C01_exK : Ctx := mkCtx 3 3 #[0b011, 0b000, 0b110]
 example : C01_exK.WF := mkCtx_WF 3 3 _ rfl (by intro i hi; interval_cases i <;> decide)
